@@ -150,6 +150,34 @@ def scenario(rng, drv, k, tier):
             "keep_reports": 1, "subinfo": subinfo, "outcomes": [rng.choice([["val", 9], ["none", 0], ["err", 0]])], "tag": "%s:%d" % (drv, k)}
 
 
+def systematic(tier):
+    """every history of up to L reports over an alphabet of report kinds x {short gap, long gap}: small-scope exhaustive
+    for the Tridonic watcher (L = 3 quick: 9 k histories, L = 4 thorough: 190 k) and, forward frames only, for SCI / LUBA"""
+    import itertools
+    F = frames()
+    alpha = [("fwd", F["plain"][0], 16), ("fwd", F["query"][0], 16), ("fwd", F["config"][0], 16), ("fwd", F["config"][1], 16),
+             ("fwd", F["edt6"], 16), ("fwd", F["ext6q"], 16), ("fwd", F["q24"], 24), ("fwd", F["ev24"][0], 24),
+             ("back", 0x5A, 8), ("err", 0, 8), ("none", 0, 8)]
+    L = 3 if tier == "quick" else 4
+    out = []
+    for ln in range(1, L + 1):
+        for items in itertools.product(range(len(alpha)), repeat=ln):
+            for gaps in itertools.product((0.09, 0.31), repeat=ln - 1):
+                t, obs = 0.05, []
+                for j, ix in enumerate(items):
+                    k, v, b = alpha[ix]
+                    obs.append([round(t, 6), k, v, b])
+                    if j < ln - 1:
+                        t += gaps[j]
+                tend = round(t + 0.5, 6)
+                for drv in ("tridonic",) + (("sci",) if ln == L and all(alpha[ix][0] in ("fwd", "back") for ix in items) else ()):
+                    o = obs if drv == "tridonic" else [x for x in obs if x[1] in ("fwd", "back")]
+                    out.append({"driver": drv, "observe": o, "subscribers": [[0.0, "join", "S0"]], "callers": [],
+                                "post_idle": round(tend + 0.6, 6), "idle": round(tend + 0.6, 6), "keep_reports": 1,
+                                "subinfo": [["S0", 0.0, 1e6]], "outcomes": [["val", 9]], "tag": "sys"})
+    return out
+
+
 def parse_reports(r, sc):
     """the history of frames the gateway reported, as the transducer's inputs"""
     inputs = []
@@ -204,6 +232,8 @@ def run(tier, seed, replay=None):
             n = 300 if tier == "quick" else 12000
             for k in range(n):
                 scs.append(scenario(rng, "tridonic" if k % 3 != 2 else rng.choice(["luba", "sci"]), k, tier))
+            scs += systematic(tier)
+            out.extra["systematic_histories"] = sum(1 for s_ in scs if s_["tag"] == "sys")
         recs = core.pmap(run_one, scs, chunksize=8)
         for ix, r in enumerate(recs, 1):
             r["id"] = ix
@@ -221,7 +251,8 @@ def run(tier, seed, replay=None):
         out.rule = ("one run per traffic history (1..8 transactions: plain, query+answer/silence/framing error, config sent "
                     "twice/once/interrupted, enable-device-type + extended command (also stale or mismatched), 24-bit "
                     "commands and events, unknown frames, 'no frame' reports; gaps 100 or 300 ms), optionally an own send, "
-                    "0-3 subscribers joining/leaving; non-trivial = histories with >= 4 reports and at least one delivery")
+                    "0-3 subscribers joining/leaving; plus every history of up to 3 (quick) / 4 (thorough) reports over 11 report "
+                    "kinds x {90 ms, 310 ms} gaps; non-trivial = histories with >= 4 reports and at least one delivery")
         byid = {r["id"]: r for r in recs}
         s0 = recs[min(2, len(recs) - 1)]
         out.samples = [{"driver": s0["driver"], "inputs": s0["inputs"][:8], "subs": s0["subs"], "got": [g[:4] for g in s0["got"]]}]
